@@ -173,7 +173,7 @@ def run(chk):
                        "capped), no printing of self-containing containers",
                        "sleep with a negative or huge argument and exit between a write and the end of the program are not judged"]
     chk.floor = 8000
-    chk.rule += '; plus every format text x every value, header fields assigned values of every kind and written back, every layer of random frames and of their truncations read and written back, 34 non-printing operations on self-containing containers, filter programs after a failed prelude / action and inside functions'
+    chk.rule += '; plus every format text x every value, header fields assigned values of every kind and written back, every layer of random frames and of their truncations read and written back, 34 non-printing operations on self-containing containers, filter programs after a failed prelude / action and inside functions, every operator on every ordered pair of kind representatives (zeros of every numeric kind)'
     work = core.scratch_dir()
     suspects = []   # (src, result, cls)
     try:
@@ -209,6 +209,19 @@ def run(chk):
             a, b = rng.choice(BUILTINS), rng.choice(BUILTINS)
             op = rng.choice(["+", "-", "*", "/", "%", "<", "==", "&&", "<<", "&"])
             jobs.append(("chain", a + "/" + b, "%s(%s(%s)) %s %s" % (a, b, rng.choice(srcs), op, rng.choice(srcs))))
+        # every operator on every ordered pair of representatives of each kind, zeros of every numeric kind included
+        # (what they yield is C09's business; here they must end normally)
+        reps = [lit(v) for v in (0, 1, -1, 2, 63, 64, 65, I64_MAX, I64_MIN, 0.0, -0.0, 1.5, math.nan, math.inf, "", "a", None, True, False)] + [
+            "byte(0)", "byte(1)", "byte(255)", "'a'", "char(0)", "[]", "[0]", "map {}", "fn() { 0 }", "len"]
+        for op in ("+", "-", "*", "/", "%", "<<", ">>", "&", "|", "^", "<", "<=", ">", ">=", "==", "!=", "&&", "||"):
+            for a in reps:
+                for b2 in reps:
+                    jobs.append(("operator", op, "%s %s %s" % (a, op, b2)))
+                    if op in ("/", "%", "<<", ">>") and not quick:
+                        jobs.append(("operator", op, "let x = %s; let y = %s; x = x %s y; x %s y" % (a, b2, op, op)))
+        for op in ("-", "!", "~"):
+            for a in reps:
+                jobs.append(("operator", "u" + op, "%s(%s)" % (op, a)))
         for _ in range(2000 if quick else 30000):
             a = rng.choice(srcs)
             jobs.append(("index", "", rng.choice(["%s[%s]", "%s[%s] = 1", "(%s).%s" % ("%s", rng.choice(["src", "payload", "eth", "type", "magic", "len", "flags"])) + " // %s",
